@@ -539,6 +539,19 @@ func c19r6(c *an.Ctx) {
 		if fn == nil || len(fn.Blocks) == 0 {
 			continue
 		}
+		// a new method composed of existing accessors (Wait then Err) reads the word once per accessor by design;
+		// the obligation is about the accessors of the reviewed API
+		if !an.InInventory(named.Obj().Pkg().Path(), "Signal."+m.Name()) && c.P.Ren != nil && c.P.Ren.CanonF[m.Origin()] == "" {
+			direct := false
+			an.Instrs(fn, func(in ssa.Instruction) {
+				if call, ok := in.(*ssa.Call); ok && isAtomicLoadOf(call, status) {
+					direct = true
+				}
+			})
+			if !direct {
+				continue
+			}
+		}
 		flow := &an.Flow{Fn: fn, Init: []string{"0"}, Inline: func(call ssa.CallInstruction) *ssa.Function {
 			callee := call.Common().StaticCallee()
 			if callee == nil || len(callee.Blocks) == 0 || callee.Signature.Recv() == nil {
